@@ -21,6 +21,32 @@ CHECKS = {
         "enumerated pairwise, other arities/kinds/collection shapes are seeded samples. Held = held on the judged executions listed in the evidence.",
         "numpy (einsum, svd) and Fraction arithmetic trusted; wrappers assumed behaviour-preserving; coordinates |x|<=1000, collection rank<=2",
     ),
+    "C02": (
+        "runtime contract on the exception exits of _join_meet_duality with exact rational dependence/skewness oracle",
+        "Every join/meet call with dependence checking is classified exactly (independent / dependent / skew per collection position) and the "
+        "raise behaviour and the dependent_values mask are compared; all ordered lattice pairs incl. the zero vector are enumerated, other "
+        "degenerate configurations are constructed with random multipliers. Held = held on the judged executions.",
+        "exact status needs exactly representable coordinates; float configurations are judged only when clearly (in)dependent",
+    ),
+    "C05": (
+        "recorded add_node/add_edge history replayed by an independent einsum model at calculate(); entry-wise epsilon/delta comparison",
+        "Each diagram evaluation (workload programs and all library-internal diagrams of the repo tests) is compared with a reference that "
+        "rebuilds the contraction from the boundary history with its own subscript string; epsilon(n<=7/8) and delta(n,p) compared entry by entry (exhaustive).",
+        "numpy.einsum string form trusted; self-edges excluded (documented in DESIGN.md)",
+    ),
+    "C19": (
+        "runtime contracts on __getitem__/arithmetic dunders/__array_ufunc__/transpose/expand_dims/copy against numpy semantics and a self-validating structural index model",
+        "Every __getitem__ of every tensor class is compared with array[index] and with the index types predicted by a structural model of numpy "
+        "indexing (validated per case against numpy's result shape); arithmetic against elementwise numpy / the affine point model; random "
+        "expressions and operand pairings are seeded samples. Four index classes are recorded as open known findings (F18-K1,K3,K4,K5).",
+        "numpy is the reference semantics; index forms the model does not cover are skipped and counted",
+    ),
+    "C20": (
+        "runtime contracts on det/adjugate/inv/null_space/orth/roots/is_multiple/hat_matrix/matmul/matvec/outer with exact rational oracles",
+        "Every kernel call (workload configurations on both sides of each size/batch threshold, and all calls made by the repo tests) is compared "
+        "per batch position with exact Fraction determinant/adjugate/rank or an independent numpy reference. Held = held on the judged executions.",
+        "LAPACK behaviour on singular inputs not judged; tolerance 1e-10 relative to the Hadamard/Frobenius scale",
+    ),
 }
 
 NOT_APPLICABLE = []
